@@ -289,7 +289,164 @@ namespace
       {
         if(c.rng.coin(0.5)) { fill_values(*next, dn); cur = std::move(next); if(!check_image(op, *cur, truth, ex)) return; }
       }
-      else if(c.rng.coin(0.7)) cur = std::move(next);
+      else
+      {
+        Truth t = truth;
+        if(mode == 3 && !layout_mutation(op, *next, &t, *cur, truth, ex)) return; // deep clone re-laid-out: source intact
+        if(c.rng.coin(0.7)) { truth = t; cur = std::move(next); }
+      }
+    }
+
+    // layout mutation of `m` (which must share nothing with `other`): CSR/BCSR are permuted in place by a random
+    // permutation (NOT undone), the other formats get one index slot overwritten and restored; `other` must keep its
+    // image and structure.  `tm` is the image of m (updated), `to` the image of other.
+    bool layout_mutation(const std::string& op, AnyM& m, Truth* tm, AnyM& other, const Truth& to, const std::vector<std::string>& ex)
+    {
+      Decoded d; std::string why;
+      if(!decode(m.key, m.arrays(), d, why)) return true;
+      if(d.used == 0) return true; // nothing to re-lay-out
+      if(m.can_permute())
+      {
+        std::vector<Index> p(d.BR), q(d.BC);
+        for(Index i = 0; i < d.BR; ++i) p[i] = i; for(Index i = 0; i < d.BC; ++i) q[i] = i;
+        c.rng.shuffle(p); c.rng.shuffle(q);
+        Permutation P1 = mk_perm(p), P2 = mk_perm(q);
+        note_step(vh::J().kv("layout_mutation", "permute clone").raw("p", vh::jarr(p, 32)).raw("q", vh::jarr(q, 32)).str());
+        m.permute(P1, P2);
+        const int BH = m.key.fmt == F_BCSR ? m.key.bh : 1, BW = m.key.fmt == F_BCSR ? m.key.bw : 1;
+        if(tm)
+        {
+          Truth t = tm->permuted(blow_up(p, BH), blow_up(q, BW));
+          if(!check_image(op + "(permuted clone)", m, t, ex)) return false;
+          *tm = t;
+        }
+        c.event();
+        Decoded ds; 
+        if(!decode(other.key, other.arrays(), ds, why)) { fail(op, "source-layout-corrupted", vh::J().kv("why", why).kv("after", "permute of the clone"), ex); return false; }
+        if(!check_image_as(op, "source-corrupted", other, to, ex)) return false;
+        return true;
+      }
+      // raw poke of every index array
+      Arr am = m.arrays(), ao = other.arrays();
+      const std::uint64_t h0 = other.hash();
+      for(std::size_t i = 0; i < am.ix.size(); ++i)
+      {
+        if(!am.ix[i] || am.ixs[i] == 0) continue;
+        c.event();
+        if(m.key.it) { auto* z = static_cast<std::uint64_t*>(am.ix[i]); const std::uint64_t o = z[0]; z[0] = o + 1; const bool ch = other.hash() != h0; z[0] = o;
+          if(ch) { fail(op, "source-layout-corrupted", vh::J().kv("index_array", (unsigned long)i).kv("after", "write into the clone's index array"), ex); return false; } }
+        else { auto* z = static_cast<std::uint32_t*>(am.ix[i]); const std::uint32_t o = z[0]; z[0] = o + 1; const bool ch = other.hash() != h0; z[0] = o;
+          if(ch) { fail(op, "source-layout-corrupted", vh::J().kv("index_array", (unsigned long)i).kv("after", "write into the clone's index array"), ex); return false; } }
+      }
+      (void)ao;
+      return true;
+    }
+    void note_step(const std::string& js) { steps.add_raw(js); c.desc = vh::J().raw("input", input_desc).raw("steps", steps.str()).str(); if(c.verbose()) { std::printf("   %s\n", js.c_str()); std::fflush(stdout); } }
+    // check_image, but every failure is reported under `kind` (used for "the source must stay intact")
+    bool check_image_as(const std::string& op, const std::string& kind, const AnyM& m, const Truth& t, const std::vector<std::string>& ex)
+    {
+      Decoded d; std::string why;
+      c.event();
+      if(!decode(m.key, m.arrays(), d, why)) { fail(op, kind, vh::J().kv("why", why), ex); return false; }
+      if(d.R != t.R || d.C != t.C) { fail(op, kind, vh::J().kv("why", "dimensions changed"), ex); return false; }
+      for(std::size_t q = 0; q < t.v.size(); ++q)
+      {
+        const LD e = m.key.dt ? (LD)(double)t.v[q] : (LD)(float)(double)t.v[q];
+        if(!(e == d.v[q])) { fail(op, kind, vh::J().kv("why", "image changed").kv("row", (unsigned long)(q / t.C)).kv("col", (unsigned long)(q % t.C)).kv("got", d.v[q]).kv("expected", e), ex); return false; }
+      }
+      return true;
+    }
+
+    // cross-type clone: target<DT2,IT2>.clone(source<DT,IT>, mode)
+    void step_xclone()
+    {
+      std::vector<const XClone*> cand;
+      for(auto& x : reg().xclones) if(x.from == cur->key) cand.push_back(&x);
+      if(cand.empty()) return;
+      const XClone& xc = *cand[c.rng.below(cand.size())];
+      do_xclone(xc, int(c.rng.below(5)), int(c.rng.below(2)));
+    }
+    void do_xclone(const XClone& xc, const int mode, const int variant)
+    {
+      const std::string op = std::string(fmt_name(cur->key.fmt)) + ".xclone";
+      const std::vector<std::string> ex = {std::string("mode:") + mode_name(mode), xc.to.dt == xc.from.dt ? "same_dt" : "other_dt", xc.to.it == xc.from.it ? "same_it" : "other_it"};
+      refresh(op, vh::J().kv("op", op).kv("mode", mode_name(mode)).kv("to", xc.to.name()).kv("variant", variant).str());
+      const std::uint64_t h0 = cur->hash();
+      if(c.has_tag("null_array"))
+      {
+        const AnyM* src = cur.get();
+        vh::ForkResult fr = vh::run_forked([&] { P x = xc.fn(*src, mode, variant); });
+        c.event();
+        if(fr.died()) { fail(op, "crash", vh::J().kv("signal", fr.sig).kv("exit", fr.code).kv("stderr", fr.err.substr(0, 700)), ex); return; }
+      }
+      P next = xc.fn(*cur, mode, variant);
+      if(!unchanged(op, *cur, h0, ex)) return;
+      Arr a = cur->arrays(), b = next->arrays();
+      c.event();
+      if(a.el.size() != b.el.size() || a.ix.size() != b.ix.size() || a.els != b.els || a.ixs != b.ixs || a.sc != b.sc)
+      { fail(op, "clone-shape", vh::J().kv("why", "array counts / sizes / scalar index differ from the source"), ex); return; }
+      // documented clone semantics (CloneMode; the template is \copydoc'ed from the same-type clone): Deep/Allocate share
+      // nothing in ANY type combination; Shallow/Weak/Layout can only share arrays whose element type is unchanged
+      const bool share_ix = mode <= 2 && xc.to.it == xc.from.it, share_el = mode == 0 && xc.to.dt == xc.from.dt;
+#ifndef C02_SKIP_XALIAS // (debug switch: lets the mutation monitors be validated on their own)
+      for(std::size_t i = 0; i < a.ix.size(); ++i)
+      {
+        if(!a.ix[i] && !b.ix[i]) continue;
+        if((a.ix[i] == b.ix[i]) != share_ix)
+        { fail(op, "alias", vh::J().kv("array", "indices").kv("index", (unsigned long)i).kv("shared", a.ix[i] == b.ix[i]).kv("expected_shared", share_ix), ex); return; }
+      }
+      for(std::size_t i = 0; i < a.el.size(); ++i)
+      {
+        if(!a.el[i] && !b.el[i]) continue;
+        if((a.el[i] == b.el[i]) != share_el)
+        { fail(op, "alias", vh::J().kv("array", "elements").kv("index", (unsigned long)i).kv("shared", a.el[i] == b.el[i]).kv("expected_shared", share_el), ex); return; }
+      }
+#endif
+      if(mode == 4) { c.count("xclone:allocate"); return; }
+      Decoded ds, dn; std::string why;
+      if(!decode(cur->key, a, ds, why)) return;
+      Truth t = truth;
+      if(xc.to.dt == 0 && xc.from.dt == 1) t.round_to_float();
+      if(mode == 1) { if(!check_pattern(op, *next, ds, ex, &dn)) return; }
+      else if(!check_image(op, *next, t, ex, &dn)) return;
+      // value mutation monitor, both directions, raw bits of the read side
+      if(ds.used > 0)
+      {
+        for(int dir = 0; dir < 2; ++dir)
+        {
+          AnyM& wr = dir == 0 ? *cur : *next; AnyM& rd = dir == 0 ? *next : *cur;
+          Arr aw = wr.arrays(), ar = rd.arrays();
+          std::size_t q = std::size_t(c.rng.below(ds.mask.size()));
+          while(!ds.mask[q]) q = (q + 1) % ds.mask.size();
+          const std::size_t k = ds.slot[q];
+          const std::uint64_t bw0 = getbits(aw.el[0], wr.key.dt, k), br0 = getbits(ar.el[0], rd.key.dt, k);
+          double nv = 3.0;
+          for(double cand2 : {3.0, 5.0, 7.0}) { setv(aw.el[0], wr.key.dt, k, cand2); const std::uint64_t nb = getbits(aw.el[0], wr.key.dt, k); setbits(aw.el[0], wr.key.dt, k, bw0); if(nb != bw0 && (!share_el || nb != br0)) { nv = cand2; break; } }
+          setv(aw.el[0], wr.key.dt, k, nv);
+          const std::uint64_t bw1 = getbits(aw.el[0], wr.key.dt, k), br1 = getbits(ar.el[0], rd.key.dt, k);
+          setbits(aw.el[0], wr.key.dt, k, bw0);
+          c.event();
+          if(share_el ? (br1 != bw1) : (br1 != br0))
+          {
+            fail(op, share_el ? "shallow-not-aliased" : "not-value-independent", vh::J().kv("direction", dir == 0 ? "write source, read clone" : "write clone, read source").kv("slot", (unsigned long)k), ex);
+            return;
+          }
+        }
+      }
+      // layout mutation monitor (only where nothing may be shared): the clone is re-laid-out, the source must not notice
+      bool keep_clone = c.rng.coin(0.6);
+      if(!share_ix && !share_el && mode != 1)
+      {
+        if(!layout_mutation(op, *next, &t, *cur, truth, ex)) return;
+        if(c.rng.coin(0.5)) { if(!layout_mutation(op, *cur, &truth, *next, t, ex)) return; }
+      }
+      else if(!check_image(op, *cur, truth, ex)) return;
+      if(mode == 1)
+      {
+        if(c.rng.coin(0.5)) { fill_values(*next, dn); cur = std::move(next); check_image(op, *cur, truth, ex); }
+        return;
+      }
+      if(keep_clone) { truth = t; cur = std::move(next); }
     }
 
     void step_transpose()
@@ -437,7 +594,8 @@ namespace
         const int w = int(c.rng.below(100));
         if(w < 24) step_convert(true);
         else if(w < 36) step_convert(false);
-        else if(w < 54) step_clone();
+        else if(w < 46) step_clone();
+        else if(w < 54) step_xclone();
         else if(w < 66) { if(cur->can_transpose()) step_transpose(); }
         else if(w < 78) { if(cur->can_permute()) step_permute(); }
         else if(w < 86) { if(cur->has_layout()) step_layout(); }
@@ -521,6 +679,23 @@ VH_FAMILY(pairs)
   ch.apply_conv(cv, int(round % 3));
   if(!ch.dead && c.rng.coin(0.5)) ch.random_step();
   c.sig = cv.op + "|" + cv.from.name() + "->" + cv.to.name() + "|" + (round < n_edge() ? "edge" + std::to_string(round) : ch.base_tags[0]) + ch.sig_ops;
+}
+
+// family xclones: every cross-type clone (format x (DT,IT)->(DT2,IT2)) x clone mode, systematically
+VH_FAMILY(xclones)
+{
+  auto& xs = reg().xclones;
+  const std::size_t combos = xs.size() * 5;
+  const XClone& xc = xs[(c.k % combos) / 5];
+  const int mode = int(c.k % 5);
+  const std::size_t round = c.k / combos;
+  Chain ch(c);
+  c.set_op("build");
+  if(!start(ch, xc.from, round < n_edge(), round)) { c.trivial = true; return; }
+  if(!ch.check_image("build", *ch.cur, ch.truth)) return;
+  ch.do_xclone(xc, mode, int(round % 2));
+  if(!ch.dead && c.rng.coin(0.5)) ch.random_step();
+  c.sig = std::string("xclone|") + xc.from.name() + "->" + xc.to.name() + "|" + mode_name(mode) + "|" + (round < n_edge() ? "edge" + std::to_string(round) : ch.base_tags[0]);
 }
 
 VH_FEAT_MAIN
